@@ -1,6 +1,16 @@
--- Root of the `EpModel` library: model, spec, lemmas, property theorems.
+-- Root of the `EpModel` library: model, spec, lemmas, drivers, property theorems.
+-- (every module that must be built by `lake build EpModel` is imported here)
 import EpModel.Model.Basic
 import EpModel.Model.Checksum
 import EpModel.Driver.Ck
-import EpModel.Driver.SpecOps
+import EpModel.Driver.Bf
+import EpModel.Driver.Opt
+import EpModel.Driver.Ext
+import EpModel.Driver.Frag
+import EpModel.Driver.Io
+import EpModel.Driver.View
+import EpModel.Driver.Enc
+import EpModel.Driver.Set
+import EpModel.Driver.Build
+import EpModel.Driver.Dec
 import EpModel.Props.C09
